@@ -62,6 +62,25 @@ def origDstCmsgV4 (le : Bool) (afInet port : Nat) (x : V4) (pad : Bytes) : Cmsg 
 def origDstCmsgV6 (le : Bool) (afInet6 port : Nat) (flow : Bytes) (gs : List Nat) (scope : Bytes) : Cmsg :=
   ⟨41, 74, native16 le afInet6 ++ [port / 256, port % 256] ++ flow ++ v6Bytes gs ++ scope⟩
 
+/-! ### the control buffer (Linux `put_cmsg`, 64-bit: header 16 bytes, 8-byte alignment) -/
+
+def cmsgHdr : Nat := 16
+def cmsgAlign (n : Nat) : Nat := (n + 7) / 8 * 8
+/-- `CMSG_SPACE(n)`. -/
+def cmsgSpace (n : Nat) : Nat := cmsgHdr + cmsgAlign n
+
+/-- What the kernel leaves in a control buffer with `room` bytes free: items in order; one that
+does not fit is cut to the room left (MSG_CTRUNC), one for which not even a header fits is lost
+together with everything after it.  (The harness checks its Python twin of this function
+against real loopback sockets on every run.) -/
+def kernelAncillary : Nat → List Cmsg → List Cmsg
+  | _, [] => []
+  | room, c :: r =>
+    if room < cmsgHdr then []
+    else if room < cmsgHdr + c.data.length then
+      [{ c with data := c.data.take (room - cmsgHdr) }]
+    else c :: kernelAncillary (room - min room (cmsgSpace c.data.length)) r
+
 /-- An ancillary item `recv_udp` must skip. -/
 def Cmsg.Foreign (c : Cmsg) : Prop := ¬ (c.level = 0 ∧ c.type = 20) ∧ ¬ (c.level = 41 ∧ c.type = 74)
 
@@ -73,14 +92,15 @@ structure Dgram where
   port : Nat
   data : Bytes
   fresh : Nat
+  now : Nat      -- `time.time()` when the datagram is accepted (any value: the clock may even step back)
 deriving Repr
 
 /-- A sequence of datagrams through `onaccept_udp`, the association table threaded along. -/
 def runUdp (fam : Nat) : UdpTable → List Dgram → List UdpEv
   | _, [] => []
   | t, d :: ds =>
-    (onacceptUdp t fam d.src d.ip (Int.ofNat d.port) d.data (some d.fresh)).2 ++
-      runUdp fam (onacceptUdp t fam d.src d.ip (Int.ofNat d.port) d.data (some d.fresh)).1 ds
+    (onacceptUdp t fam d.src d.ip (Int.ofNat d.port) d.data (some d.fresh) d.now).2 ++
+      runUdp fam (onacceptUdp t fam d.src d.ip (Int.ofNat d.port) d.data (some d.fresh) d.now).1 ds
 
 /-- Payloads of the CMD_UDP_DATA frames, in order. -/
 def dataPayloads : List UdpEv → List Bytes
@@ -101,6 +121,31 @@ def sessExpected : Bool → List SOp → List (Option ReadLine)
   | _, [] => []
   | alive, .host fails :: r => none :: sessExpected (alive && !fails) r
   | alive, .query reply :: r => some (if alive then .line reply else .eof) :: sessExpected alive r
+
+/-- What the application dialled, as far as the address goes. -/
+inductive Dialled
+  | v4 (x : V4)
+  | v6 (gs : List Nat)
+  | v6scoped (gs : List Nat) (zone : Text)    -- link-local with a zone: `fe80::1%eth0`
+
+def Dialled.Wf : Dialled → Prop
+  | .v4 x => x.Wf
+  | .v6 gs => V6Wf gs
+  | .v6scoped gs zone => V6Wf gs ∧ zone ≠ [] ∧ ∀ c ∈ zone, (48 ≤ c ∧ c ≤ 57) ∨ (97 ≤ c ∧ c ≤ 122) ∨ (65 ≤ c ∧ c ≤ 90)
+
+/-- The texts the client side can produce for it: dotted quad; either IPv6 printer; either
+printer followed by `%zone` (what `getsockname()` gives for a scoped address). -/
+def Dialled.Printed : Dialled → Text → Prop
+  | .v4 x, t => t = strV4 x.a x.b x.c x.d
+  | .v6 gs, t => t = strV6 gs ∨ t = ntopV6 gs
+  | .v6scoped gs zone, t => t = strV6 gs ++ 37 :: zone ∨ t = ntopV6 gs ++ 37 :: zone
+
+/-- The text denotes that address for the server's `connect` (numeric parse; a `%zone` suffix is
+split off first, as `getaddrinfo` does). -/
+def Dialled.Denoted : Dialled → Text → Prop
+  | .v4 x, t => parseV4 t = some (x.a, x.b, x.c, x.d)
+  | .v6 gs, t => parseV6 t = some gs
+  | .v6scoped gs zone, t => ∃ a, breakAt 37 t = some (a, zone) ∧ parseV6 a = some gs
 
 /-- The text denotes the IPv4 address `x` for the server's `connect`/`sendto`. -/
 def DenotesV4 (t : Text) (x : V4) : Prop := parseV4 t = some (x.a, x.b, x.c, x.d)
